@@ -15,7 +15,7 @@ import shutil
 
 import numpy as np
 
-from mc import runs
+from mc import runs, vclock
 from mc.monitors import StdMonitor
 from mc.tinymodels import Guarded, KillSignal, make
 
@@ -232,7 +232,9 @@ def kill_run(cfg, kills):
     o_dump = sbase.safe_file_dump
     leg = {}
 
-    last = {"counter": None, "time": None}
+    last = {"counter": None, "time": None, "stime": None}
+    clk = vclock.VClock()
+    leg["clock"] = clk
 
     def dump(data, filename, *a, **k):
         # evaluation accounting at every checkpoint of every leg
@@ -240,14 +242,47 @@ def kill_run(cfg, kills):
         expected = leg["c0"] + (g.rows - leg["rows_setup"])
         if data.model.likelihood_evaluations != expected:
             errs.append(("evaluation-count-at-checkpoint", f"counter {data.model.likelihood_evaluations} vs {leg['c0']} restored + {g.rows - leg['rows_setup']} evaluated in this leg (leg {legs}, iteration {data.iteration})"))
+        # timers under the virtual clock (one second per evaluated point, DOWNTIME between legs)
+        lt = vclock.seconds(data.model.likelihood_evaluation_time)
+        lt_want = leg["lt0"] + (clk.t - leg["t_start"])
+        if lt != lt_want:
+            errs.append(("likelihood-time-at-checkpoint", f"{lt} s vs {leg['lt0']} s restored + {clk.t - leg['t_start']} s of evaluations in this leg (leg {legs}, iteration {data.iteration})"))
+        st = vclock.seconds(data.sampling_time)
+        if leg.get("ck_prev") is None:
+            # first checkpoint of the leg: the time carried over plus the time since the loop was
+            # entered (a fresh run may or may not count its initialisation)
+            lo = leg["s0"] + (clk.t - leg.get("t_loop", leg["t_start"]))
+            hi = leg["s0"] + (clk.t - leg["t_start"])
+        else:
+            lo = hi = leg["ck_prev"][0] + (clk.t - leg["ck_prev"][1])
+        if not (lo <= st <= hi):
+            errs.append(("sampling-time-at-checkpoint", f"{st} s vs {lo}..{hi} s expected (carried {leg['s0']} s, leg {legs}, iteration {data.iteration}, previous checkpoint of this leg {leg.get('ck_prev')}; the down time between legs is {vclock.DOWNTIME} s)"))
+        leg["ck_prev"] = (st, clk.t)
         r = o_dump(data, filename, *a, **k)
         last["counter"] = data.model.likelihood_evaluations
         last["time"] = data.model.likelihood_evaluation_time
+        last["stime"] = data.sampling_time
         return r
 
     sbase.safe_file_dump = dump
+    from nessai.samplers.importancesampler import ImportanceNestedSampler as _INS
+    from nessai.samplers.nestedsampler import NestedSampler as _NS
+
+    loops = {c: c.nested_sampling_loop for c in (_NS, _INS)}
+
+    def _wrap(c):
+        o = loops[c]
+
+        def loop(self_, *a, **k):
+            leg.setdefault("t_loop", clk.t)
+            return o(self_, *a, **k)
+
+        c.nested_sampling_loop = loop
+
+    for c in loops:
+        _wrap(c)
     try:
-        with mon.installed():
+        with mon.installed(), clk.installed():
             for attempt in range(len(kills) + 2):
                 model = make(cfg.get("model", "G2"))
                 g = Guarded(model)
@@ -264,14 +299,20 @@ def kill_run(cfg, kills):
                         errs.append(("evaluation-count-after-resume-differs-from-the-count-at-the-last-checkpoint", f"leg {legs} starts from {c0}; the last completed checkpoint was written when the counter was {last['counter']}"))
                     if legs > 1 and last["time"] is not None and model.likelihood_evaluation_time < last["time"] - datetime.timedelta(milliseconds=1):
                         errs.append(("likelihood-time-after-resume-below-the-time-at-the-last-checkpoint", f"{model.likelihood_evaluation_time} < {last['time']}"))
+                    if legs > 1 and last["time"] is not None and model.likelihood_evaluation_time != last["time"]:
+                        errs.append(("likelihood-time-after-resume-differs-from-the-time-at-the-last-checkpoint", f"{model.likelihood_evaluation_time} vs {last['time']}"))
                     st0 = fs.ns.sampling_time
+                    if legs > 1 and last["stime"] is not None and st0 != last["stime"]:
+                        errs.append(("sampling-time-after-resume-differs-from-the-time-at-the-last-checkpoint", f"{st0} vs {last['stime']}"))
                     model.vectorised_likelihood  # force the lazy vectorisation probe now
-                    leg.update(guard=g, c0=c0, rows_setup=g.rows)
+                    leg.pop("t_loop", None)
+                    leg.update(ck_prev=None, guard=g, c0=c0, rows_setup=g.rows, lt0=vclock.seconds(model.likelihood_evaluation_time), s0=vclock.seconds(st0), t_start=clk.t)
                     g.kcalls = 0
                     if kills:
                         g.kill_call = kills.pop(0)
                     else:
                         g.kill_call = None
+                    g.clock = clk
                     _arm(g)
                     fs.run(plot=False, save=False)
                     total_calls += g.kcalls
@@ -280,9 +321,20 @@ def kill_run(cfg, kills):
                         errs.append(("evaluation-count-at-end", f"counter {model.likelihood_evaluations} vs {c0} restored + {g.rows - leg['rows_setup']} evaluated after the resume"))
                     if fs.ns.sampling_time < st0:
                         errs.append(("sampling-time-decreased", f"{fs.ns.sampling_time} < {st0}"))
+                    lt, lt_want = vclock.seconds(model.likelihood_evaluation_time), leg["lt0"] + (clk.t - leg["t_start"])
+                    if lt != lt_want:
+                        errs.append(("likelihood-time-at-end", f"{lt} s vs {leg['lt0']} s restored + {clk.t - leg['t_start']} s of evaluations after the resume"))
+                    st = vclock.seconds(fs.ns.sampling_time)
+                    if leg.get("ck_prev") is None:
+                        lo, hi = leg["s0"] + (clk.t - leg.get("t_loop", leg["t_start"])), leg["s0"] + (clk.t - leg["t_start"])
+                    else:
+                        lo = hi = leg["ck_prev"][0] + (clk.t - leg["ck_prev"][1])
+                    if not (lo <= st <= hi):
+                        errs.append(("sampling-time-at-end", f"{st} s vs {lo}..{hi} s expected (carried {leg['s0']} s, {legs} legs; down time between legs {vclock.DOWNTIME} s)"))
                     break
                 except KillSignal:
                     total_calls += getattr(g, 'kcalls', 0)
+                    clk.tick(vclock.DOWNTIME)
                     continue
             else:
                 errs.append(("run-did-not-finish", ""))
@@ -293,6 +345,8 @@ def kill_run(cfg, kills):
         fs = None
     finally:
         sbase.safe_file_dump = o_dump
+        for c, o in loops.items():
+            c.nested_sampling_loop = o
     errs += mon.errs[:2]
     if fs is not None and not errs:
         (runs.check_std_results if kind == "std" else runs.check_ins_results)(fs, model, errs)
@@ -307,6 +361,8 @@ def _arm(g):
 
     def ll(x, _inner=inner):
         g.kcalls += 1
+        if getattr(g, "clock", None) is not None:
+            g.clock.tick(np.atleast_1d(x).size)
         if g.kill_call is not None and g.kcalls == g.kill_call:
             raise KillSignal(g.kcalls)
         return _inner(x)
